@@ -100,8 +100,11 @@ def family(name):
         return "host-label"
     if f.startswith("index-page") or f.startswith("trailing-slash") or f == "root-slash":
         return "path-tail"
-    if f.startswith("scheme") or f.startswith("explicit-port"):
-        return "scheme-port"
+    # scheme and explicit default port are two variations of the statement's list: they compose (https://h:443 -> h:443 -> http://h:443)
+    if f.startswith("scheme"):
+        return "scheme"
+    if f.startswith("explicit-port"):
+        return "port"
     return f
 
 
@@ -140,6 +143,15 @@ def shard(job):
                 if r != r0:
                     col.violation("normalize(T(u))==normalize(u):" + name.split(":")[0], FN, dict(kw, url=u, variant=tu, transformation=name),
                                   {"normalize(url)": r0[1], "normalize(variant)": repr(r)}, "equal")
+            # scheme x explicit default port, every combination (:80 and :443 are dropped whatever the scheme says)
+            for sch in ("http://", "https://", "", "//", "HTTPS://"):
+                for port in (":80", ":443"):
+                    tu = b.copy(scheme=sch, port=port).build()
+                    r = norm(tu, kw)
+                    col.count("invariant:scheme-x-default-port")
+                    if r != r0:
+                        col.violation("normalize(T2(T1(u)))==normalize(u)", FN, dict(kw, url=u, variant=tu, transformation="scheme + explicit-port"),
+                                      {"normalize(url)": r0[1], "normalize(variant)": repr(r)}, "equal")
             # two transformations composed
             ts = list(transforms(b, rnd, tier))
             for _ in range(6 if tier == "quick" else 40):
